@@ -34,6 +34,8 @@ def configs(tier):
             for mode in ('sum', 'delta'):
                 cfgs.append(dict(group='normalize', d=d, flavor=fl, mode=mode, _cost=(24 if mode == 'delta' else 1) * d))
     cfgs.append(dict(group='normalize', d=2, flavor='py', mode='other'))
+    for d, mode in ([(1, 'sum'), (2, 'sum')] if tier == 'quick' else [(1, 'sum'), (2, 'sum'), (2, 'delta'), (3, 'sum')]):
+        cfgs.append(dict(group='normalize_binary64', d=d, mode=mode, _cost=200))
     cfgs.append(dict(group='normalize_via_explainer', d=2, flavor='np', mode='sum'))
     cfgs.append(dict(group='normalize_via_explainer', d=3, flavor='py', mode='delta'))
     for cls in ('IncrementalSage', 'IncrementalPFI'):
@@ -45,6 +47,8 @@ def configs(tier):
         for t in range(0, tmax + 1):
             cfgs.append(dict(group='confidence', cls=cls, d=1, mode='dynamic', t=t))
         cfgs.append(dict(group='confidence_delta_domain', cls=cls, d=1, mode='dynamic'))
+        for mode in ('static', 'dynamic'):
+            cfgs.append(dict(group='after_update', cls=cls, d=1, q=1, m=1, mode=mode, imputer='default', storage='batch', _cost=30))
     return cfgs
 
 
@@ -220,3 +224,94 @@ def _confidence_delta_domain(env, cfg):
         ok = False
     inside = And(delta > 0, delta <= 1)
     env.claim('delta_accepted_iff_in_half_open_unit_interval', inside if ok else Not(inside))
+
+
+def _after_update(env, cfg):
+    """read the derived views, explain one more observation, read them again: the second reading is computed from the NEW
+    importance values / variances / sample count (a memoised result of the first reading would be stale).  The expected
+    bound is built from the same sqrt witnesses as the code (sqrt is a function symbol), so the comparison needs no
+    nonlinear reasoning."""
+    import sys
+    cls = IncrementalSage if cfg['cls'] == 'IncrementalSage' else IncrementalPFI
+    b = build_incremental(env, cls, cfg)
+    ex, names = b['ex'], b['names']
+    if not b['dynamic']:
+        a = env.real('alpha')
+        env.assume(And(a > 0, a <= 1))
+        ex._smoothing_alpha = a
+    delta = env.real('delta')
+    env.assume(And(delta > 0, delta <= 1))
+    msqrt = sys.modules['ixai.explainer.base'].math.sqrt        # the shimmed math.sqrt (witness function)
+
+    def read(tag):
+        imp = dict(ex.importance_values)
+        out_sum = guarded(env, 'normalize_sum', ex.get_normalized_importance_values, mode='sum')
+        out_delta = guarded(env, 'normalize_delta', ex.get_normalized_importance_values, mode='delta')
+        _check_normalised(env, imp, out_sum, 'sum')
+        _check_normalised(env, imp, out_delta, 'delta')
+        cb = guarded(env, 'confidence', ex.get_confidence_bound, delta)
+        alpha, t = ex._smoothing_alpha, ex.seen_samples
+        for f in names:
+            if is_nonfinite(cb[f]):
+                env.claim(f"bound_is_finite_{tag}", False)
+                continue
+            expected = (1 - alpha) ** t + (1 / msqrt(delta)) * msqrt(ex.variances[f]) * msqrt(alpha / (2 - alpha))
+            env.claim(f"confidence_bound_follows_current_state_{tag}", eq(cb[f], expected))
+    read('before')
+    guarded(env, 'explain_one', ex.explain_one, b['x'], b['y'])
+    read('after')
+
+
+def _normalize_binary64(env, cfg):
+    """bit-precise binary64 (z3 floating-point theory): whenever the normaliser is non-zero and no raw value is larger in
+    magnitude than 2^20 times the normaliser (so the true ratios are far from overflow), the normalised values are finite -
+    also for subnormal normalisers; a zero normaliser gives exact zeros."""
+    import z3
+    from symx.fp64 import F64Sym, F64
+    if env.mode != 'sym':
+        return _normalize_binary64_replay(env, cfg)
+    names = names_for('str', cfg['d'])
+    vals = {f: F64Sym.var(f"b64_{i}") for i, f in enumerate(names)}
+    for v in vals.values():
+        env.assume(v.is_finite())
+    out = guarded(env, 'normalize', BaseIncrementalFeatureImportance._normalize_importance_values, vals, mode=cfg['mode'])
+    vs = [vals[f] for f in names]
+    if cfg['mode'] == 'sum':
+        factor = vs[0]
+        for v in vs[1:]:
+            factor = factor + v
+    else:
+        hi = lo = vs[0]
+        for v in vs[1:]:
+            hi = F64Sym(z3.If(z3.fpGT(v.t, hi.t), v.t, hi.t))
+            lo = F64Sym(z3.If(z3.fpLT(v.t, lo.t), v.t, lo.t))
+        factor = hi - lo
+    zero = z3.fpIsZero(factor.t)
+    moderate = z3.And(factor.is_finite().t, *[z3.fpLEQ(z3.fpAbs(v.t), z3.fpMul(z3.RNE(), z3.fpAbs(factor.t), z3.FPVal(2.0 ** 20, F64)))
+                                               for v in vs])
+    for f in names:
+        o = out[f]
+        if isinstance(o, F64Sym):
+            env.claim('finite_for_every_nonzero_normaliser_including_subnormals',
+                      z3.Implies(z3.And(z3.Not(zero), moderate), o.is_finite().t))
+        else:
+            env.claim('exact_zero_for_zero_normaliser', o == 0.0)
+    env.canary('not_always_finite_without_the_precondition', out[names[0]].is_finite().t if isinstance(out[names[0]], F64Sym) else False)
+
+
+def _normalize_binary64_replay(env, cfg):
+    """concrete replay with real binary64 numbers: subnormal and tiny normalisers"""
+    import numpy as np
+    names = names_for('str', cfg['d'])
+    tiny = [5e-324, 1e-320, 2.5e-310, 1e-308]
+    bad = []
+    for t in tiny:
+        for typ in (float, np.float64):
+            vals = {f: typ(t * (i + 1)) for i, f in enumerate(names)}
+            if cfg['mode'] == 'delta' and len(names) == 1:
+                continue
+            with np.errstate(all='ignore'):
+                out = BaseIncrementalFeatureImportance._normalize_importance_values(vals, mode=cfg['mode'])
+            if any(is_nonfinite(v) for v in out.values()):
+                bad.append((vals, out))
+    env.claim('finite_for_every_nonzero_normaliser_including_subnormals', not bad, detail=str(bad[:1]))
